@@ -140,6 +140,12 @@ class Report:
                 out.append(f"   {e.verdict}: {e.rule} {e.loc()} {e.func or ''} `{e.construct}` {e.detail}")
         for e, k in kf:
             out.append(f"KNOWN-FINDING: property={self.pid} {e.rule} {e.loc()} {e.func or ''} `{e.construct}`: {k.get('what', e.detail)}")
+        # an obligation the analysis could not decide is a silent pass in waiting: only the ones confirmed by reading
+        # (undecided_ok.json, one reason each) are tolerated; any other makes the run fail as analysis-broken (exit 2)
+        okund = load_undecided_ok()
+        for e in ents:
+            if e.verdict == "UNDECIDED" and e.key not in okund.get(self.pid, {}):
+                self.errors.append(f"obligation could not be decided (not in the confirmed list): {e.rule} {e.loc()} `{e.construct}` {e.detail}"[:400])
         for msg in self.errors:
             out.append(f"ANALYSIS-ERROR property={self.pid} {msg}")
         rdir = os.path.join(VERIF, "replay", self.pid)
@@ -199,6 +205,15 @@ class Report:
             with open(os.path.join(VERIF, "evidence", self.pid + ".json"), "w") as f:
                 json.dump(ev, f, indent=1, default=str)
         return code
+
+
+def load_undecided_ok():
+    p = os.path.join(VERIF, "undecided_ok.json")
+    if not os.path.exists(p):
+        return {}
+    with open(p) as f:
+        d = json.load(f)
+    return {pid: {x["key"]: x.get("reason", "") for x in lst} for pid, lst in d.items()}
 
 
 def load_known():
